@@ -334,6 +334,11 @@ def debug_selection_family(tier: str):
                                 yield dict(base, sel={"T": [i], "X": None, "R": None})
                         for i in dbg:
                             yield dict(base, sel={"T": None, "X": [i], "R": None})
+                        # two production targets: a debug node below BOTH (one of its parents being a pulled-in debug node) must come along
+                        prod = [i for i in range(n) if i not in dbg]
+                        if n == 4 and prio[0] != 0:
+                            for i, j in itertools.combinations(prod, 2):
+                                yield dict(base, sel={"T": [i, j], "X": None, "R": None})
 
 
 def foreign_quick_cases(own: str):
